@@ -34,7 +34,7 @@ import numpy as np
 import core
 
 LEAN_MODULE = "Optyx.Props.C14"
-EXTRA_MODULES = ["Optyx.Props.PinsC14", "Optyx.Props.StateTie"]   # transcription anchors (harness/source_pins.py)
+EXTRA_MODULES = ["Optyx.Props.PinsC14", "Optyx.Props.StateTie", "Optyx.Props.BuildTie"]   # transcription anchors (harness/source_pins.py)
 THEOREMS = [
     "Optyx.Props.C14.cache_transparent",
     "Optyx.Props.C14.cache_transparent_run",
@@ -46,6 +46,8 @@ THEOREMS = [
     "Optyx.Props.C14.gradient_cached_transparent",
     "Optyx.Props.C14.compile_cached_transparent",
     "Optyx.Props.StateTie.edits_are_source",
+    "Optyx.Props.BuildTie.compile_step",
+    "Optyx.Props.BuildTie.compileVec_step",
     "Optyx.Props.PinsC14.anchors",
 ]
 ASSUMPTIONS = [
